@@ -23,7 +23,7 @@ def run(ctx):
                 ml = maxlen if (main or p in ("0", "3")) else 40
                 if not main and ctx.thorough:
                     ml = min(ml, 96)
-                jobs.append((exe, [alg, p, ml, 1 if (ctx.thorough and p != "walk") else 0], "%s" % be))
+                jobs.append((exe, [alg, p, ml, 1 if (p != "walk" and (ctx.thorough or (main and p in ("0", "3")))) else 0], "%s" % be))
             for fam in ("aead", "inc"):
                 jobs.append((lpc, [fam, alg, lpcmax if main else 12], "%s" % be))
     # longest first
